@@ -31,6 +31,7 @@ def main():
     ap.add_argument('--skip-suite', action='store_true')
     ap.add_argument('--save')
     ap.add_argument('--workers', default='16')
+    ap.add_argument('--worktree', help='reuse this existing clean worktree (demos may assert its path); it is restored afterwards')
     a = ap.parse_args()
     src = os.path.abspath(a.src)
     meta = {}
@@ -40,12 +41,20 @@ def main():
         except Exception:
             meta = {}
     props = a.props.split(',') if a.props else [meta.get('property')]
-    wt = tempfile.mkdtemp(prefix='seedwt_')
-    os.rmdir(wt)
     res = {'patch': os.path.join(src, 'patch.diff')}
+    own = not a.worktree
+    if own:
+        wt = tempfile.mkdtemp(prefix='seedwt_')
+        os.rmdir(wt)
+    else:
+        wt = os.path.abspath(a.worktree)
     try:
-        rc, out = sh(['git', '-C', '/repo', 'worktree', 'add', '-q', '--detach', wt, 'HEAD'])
-        assert rc == 0, out
+        if own:
+            rc, out = sh(['git', '-C', '/repo', 'worktree', 'add', '-q', '--detach', wt, 'HEAD'])
+            assert rc == 0, out
+        else:
+            rc, out = sh(['git', '-C', wt, 'status', '--porcelain', '--untracked-files=no'])
+            assert rc == 0 and not out.strip(), 'worktree not clean: ' + out
         env = dict(os.environ, PYTHONPATH=wt, PYTHONDONTWRITEBYTECODE='1')
         rc, out = sh([PY, os.path.join(src, 'demo.py')], cwd=wt, env=env, timeout=600)
         res['demo_without'] = rc
@@ -78,9 +87,13 @@ def main():
                 checks[pid]['output_tail'] = out[-1500:]
         res['checks'] = checks
     finally:
-        sh(['git', '-C', '/repo', 'worktree', 'remove', '--force', wt])
-        shutil.rmtree(wt, ignore_errors=True)
-        sh(['git', '-C', '/repo', 'worktree', 'prune'])
+        if own:
+            sh(['git', '-C', '/repo', 'worktree', 'remove', '--force', wt])
+            shutil.rmtree(wt, ignore_errors=True)
+            sh(['git', '-C', '/repo', 'worktree', 'prune'])
+        else:
+            sh(['git', '-C', wt, 'checkout', '--', '.'])
+            shutil.rmtree(os.path.join(wt, '.mcout'), ignore_errors=True)
     res['valid_seed'] = (res.get('demo_without') == 0 and res.get('patch_applies') and res.get('demo_with') not in (0, None)
                          and (a.skip_suite or res.get('suite_ok')))
     print(json.dumps(res, indent=1))
